@@ -22,6 +22,9 @@ import PybropsModel.Lemmas.LabelMatBV
 import PybropsModel.Lemmas.LabelMatNOps
 import PybropsModel.Lemmas.LabelHeap
 import PybropsModel.Lemmas.LabelMatRepair
+import PybropsModel.Lemmas.LabelMatRepair2
+import PybropsModel.Lemmas.LabelMatSquare3
+import PybropsModel.Lemmas.LabelMatFill
 import PybropsModel.Lemmas.LabelMatX
 import PybropsModel.Lemmas.LabelMatSpec
 import PybropsModel.Props.C15
@@ -199,6 +202,29 @@ theorem operand_op_attached_partial {α lab : Type} [BEq lab] (le : lab → lab 
     IsLCell sch s c ∨ (∃ v ∈ op.operands, IsLCell sch (operandState s op.kind v) c) ∨ c.val = fill :=
   step_attached_good le sch hg fill fx op hok s s' hcons hopnd hp hpv h c hc
 
+/-- **Growing a square matrix loses no data cell** (full: any bundle that governs the two leading axes, any sizes, any fill
+    value).  After `append_<k>(block)` (and hence `adjoin_<k>`, `mutating_eq_pure_partial`) every cell of the receiver
+    sits at its own coordinates, every cell of the block at its coordinates shifted by the receiver's lengths along the two
+    square axes, and whatever lies in the two cross blocks is the fill value.  This is the Prop behind the driver's
+    fill-count balance (`Drv.C03.fillBalance`): the fill value stands in the cross blocks only. -/
+theorem square_adjoin_keeps_every_data_cell {α lab : Type} (sch : Schema) (k : Kind) (hax : sch.axes k = [0, 1])
+    (fill : α) (v : Operand α lab) (s s' : St α lab) (h : appendK sch k fill v s = .ok s')
+    (hm : rect s.mat = true) (hv : rect v.mat = true) :
+    (∀ i j l x, cell s.mat i j l = some x → cell s'.mat i j l = some x) ∧
+    (∀ i j l x, cell v.mat i j l = some x → cell s'.mat (axLen 0 s.mat + i) (axLen 1 s.mat + j) l = some x) ∧
+    (∀ i j l x, cell s'.mat i j l = some x →
+      (i < axLen 0 s.mat ∧ ¬ j < axLen 1 s.mat) ∨ (¬ i < axLen 0 s.mat ∧ j < axLen 1 s.mat) → x = fill) := by
+  obtain ⟨h1, h2⟩ := appendK_square_keeps_data hax h hm hv
+  refine ⟨h1, h2, fun i j l x hc hcross => ?_⟩
+  rw [(adjoinCore_square hax h).mat] at hc
+  exact blockDiag01_cross_is_fill fill s.mat v.mat i j l x hc hcross
+
+example : schSquare.axes .taxa = [0, 1] := rfl
+example : rect sSquare.mat = true := by decide
+example : ((appendK schSquare .taxa (-99 : Int) ({ mat := [[[70]]], cols := [some [170], some [5]] } : Operand Int Int) sSquare).toOption.map
+    (fun s' => (cell s'.mat 1 2 0, cell s'.mat 3 3 0, cell s'.mat 0 3 0))) = some (some 5, some 70, some (-99)) := by
+  decide +kernel
+
 theorem nonvacuous_schSquare_good : schSquare.Good := by
   refine ⟨nonvacuous_schSquare_wf, ?_, rfl, rfl⟩
   intro k
@@ -236,6 +262,47 @@ example :
          (lcells schPhased sPhased).contains c ||
          (lcells schPhased (operandState sPhased .taxa opTaxa)).contains c)
      | .error _ => false) = true := by
+  decide +kernel
+
+/-- **D17b (the code as it is).**  A 0-d ndarray position (`insert_taxa(numpy.array(1), block)`) is neither `int` nor
+    `numpy.integer`: the wrapping of fix 74ad0b65 does not apply, the position reaches numpy.insert as a scalar and the
+    result again contains a cell that neither the receiver nor the operand block has. -/
+theorem insert_zero_dim_array_position_counterexample :
+    (match insertZeroDimK schPhased .taxa 1 opTaxa sPhased with
+     | .ok s' => (lcells schPhased s').all (fun c =>
+         (lcells schPhased sPhased).contains c ||
+         (lcells schPhased (operandState sPhased .taxa opTaxa)).contains c)
+     | .error _ => true) = false := by
+  decide +kernel
+
+/-
+FULL STATEMENT (false of the as-is model for a non-leading axis, see `insert_zero_dim_array_position_counterexample`):
+  `insert_<k>(numpy.array(i), values, …)` / `incorp_<k>(numpy.array(i), values, …)` keep labels attached on every class.
+Hypothesis of the partial theorem: the bundle governs the LEADING axis (`sch.axes k = [0]`: taxa of the unphased
+genotype, taxa-trait, breeding-value and base classes) — there numpy's scalar rule is the plain block insert.
+-/
+
+/-- **A 0-d ndarray insert position on a leading axis keeps labels attached** (both forms, any sizes). -/
+theorem insert_zero_dim_leading_axis_attached_partial {α lab : Type} (sch : Schema) (hwf : sch.WF) (k : Kind)
+    (hax : sch.axes k = [0]) (mutating : Bool) (i : Int) (v : Operand α lab) (s s' : St α lab)
+    (hd : sch.pureDropsOther = false) (hcs : consistentOK sch s = true)
+    (hcv : consistentOK sch (operandState s k v) = true) (hlen : (s.bundle k).cols.length = v.cols.length)
+    (h : (if mutating then incorpZeroDimK sch k i v s else insertZeroDimK sch k i v s) = .ok s')
+    (c : LCell α lab) (hc : IsLCell sch s' c) : IsLCell sch s c ∨ IsLCell sch (operandState s k v) c :=
+  insertZeroDim_leading_attached sch hwf k hax mutating i v s s' hd hcs hcv hlen h c hc
+
+/-- a 2 × 2 unphased matrix and one taxon to insert -/
+def sGeno22 : St Int Int :=
+  { mat := [[[0], [1]], [[2], [3]]], taxa := { cols := [some [100, 101], some [1, 2]], grp := none },
+    vrnt := noCols 9, trait := noCols 1 }
+def opGenoRow : Operand Int Int := { mat := [[[50], [51]]], cols := [some [150], some [3]] }
+
+/-- … while on a leading axis (unphased matrix: taxa axis 0) the scalar rule is the block insert: same result as the
+    wrapped integer -/
+example : insertZeroDimK schGeno .taxa 1 opGenoRow sGeno22 = insertK schGeno .taxa (.int 1) opGenoRow sGeno22 := by
+  decide +kernel
+example : schGeno.axes .taxa = [0] := rfl
+example : consistentOK schGeno sGeno22 = true ∧ consistentOK schGeno (operandState sGeno22 .taxa opGenoRow) = true := by
   decide +kernel
 
 /-- **D27 (was D18).**  DenseSquareTaxaTraitMatrix inherits `select_taxa` from its taxa-only parent: the returned
@@ -447,6 +514,18 @@ theorem mutating_eq_pure_partial {α lab : Type} (sch : Schema) (hd : sch.pureDr
 
 example : (adjoinK schPhased .taxa 0 opTaxa sPhased).toOption.isSome = true := by decide
 
+/-- **The hypothesis `pureDropsOther = false` of `mutating_eq_pure_partial` is necessary (D27).**  On
+    DenseSquareTaxaTraitMatrix `adjoin_taxa` (inherited from the taxa-only parent) returns an object without trait
+    names while `append_taxa` with the same arguments keeps them: the two states differ. -/
+def opSqTrait : Operand Int Int := { mat := [[[70, 71]]], cols := [some [170], some [5]] }
+
+theorem mutating_eq_pure_drops_other_counterexample :
+    ((adjoinK schSqTrait .taxa (-99 : Int) opSqTrait sSqTrait).toOption.map
+        (fun s' => (s'.bundle .trait).cols),
+     (appendK schSqTrait .taxa (-99 : Int) opSqTrait sSqTrait).toOption.map
+        (fun s' => (s'.bundle .trait).cols)) = (some [none], some [some [200, 201]]) := by
+  decide +kernel
+
 /-- **D14.**  Coancestry matrix (square check in the constructor): `insert_taxa` is rejected, `incorp_taxa`
     with the same arguments goes through and leaves a 4 × 3 array with 4 labels. -/
 theorem square_incorp_counterexample :
@@ -454,6 +533,35 @@ theorem square_incorp_counterexample :
      (incorpK schCoancestry .taxa (.list [1]) opSquareRow sSquare).toOption.map
         (fun s' => (shape3 s'.mat, consistentOK schCoancestry s'))) = (false, some ((4, 3, 1), false)) := by
   decide +kernel
+
+/-- DenseSquareTraitMatrix: ONE trait bundle governing both axes (its own copy of the square mechanism) -/
+def schSquareTrait : Schema := { ndim := 2, taxaAx := [], vrntAx := [], traitAx := [0, 1] }
+
+/-- the square theorems (`square_unary_op_attached_partial`, `operand_op_attached_partial`, the history theorems) are
+    stated for ANY bundle that governs the two leading axes: the square trait class is an admissible class too -/
+theorem nonvacuous_schSquareTrait_good : schSquareTrait.Good := by
+  refine ⟨?_, ?_, rfl, rfl⟩
+  · intro b k1 k2 h1 h2
+    cases k1 <;> cases k2 <;> simp [Schema.axes, schSquareTrait] at h1 h2 ⊢
+  · intro k
+    cases k <;> simp [Schema.axes, schSquareTrait]
+
+/-- a 3 × 3 trait-by-trait matrix and a row block for one new trait -/
+def sSquareTrait : St Int Int :=
+  { mat := [[[0], [1], [2]], [[3], [4], [5]], [[6], [7], [8]]], taxa := noCols 2, vrnt := noCols 9,
+    trait := { cols := [some [100, 101, 102]], grp := none } }
+def opSqTraitRow : Operand Int Int := { mat := [[[70], [71], [72]]], cols := [some [170]] }
+
+/-- **D14b.**  DenseSquareTraitMatrix.incorp_trait edits the first of its two trait axes only: a 3 × 3 trait-by-trait
+    matrix becomes 4 × 3 with 4 trait names (and `insert_trait` returns that object: no squareness check). -/
+theorem square_trait_incorp_counterexample :
+    (insertK schSquareTrait .trait (.list [1]) opSqTraitRow sSquareTrait).toOption.map
+        (fun s' => (shape3 s'.mat, consistentOK schSquareTrait s')) = some ((4, 3, 1), false) ∧
+    (incorpK schSquareTrait .trait (.list [1]) opSqTraitRow sSquareTrait).toOption.map
+        (fun s' => (shape3 s'.mat, consistentOK schSquareTrait s')) = some ((4, 3, 1), false) ∧
+    (incorpK schSquareTrait .trait (.list [1]) opSqTraitRow sSquareTrait).toOption.map
+        (fun s' => (s'.bundle .trait).cols) = some [some [100, 170, 101, 102]] := by
+  refine ⟨?_, ?_, ?_⟩ <;> decide +kernel
 
 /-! ## 5. Generic = specific -/
 
@@ -499,6 +607,16 @@ theorem masked_genotyping_attached_partial {α lab : Type} [Add α] (sch : Schem
 
 example : schPhased.vrntAx = [2] := rfl
 
+/-- **… at full strength for the class the protocols accept** (`DensePhasedGenotypeMatrix`, phase × taxa × variant: the
+    schema hypotheses of the `_partial` form are facts of that class, not restrictions of the property's quantifier):
+    any mask, `invert`, presence pattern of the label arrays, sizes. -/
+theorem masked_genotyping_attached {α lab : Type} [Add α] (zero : α) (isTrue : lab → Bool) (invert : Bool)
+    (s : St α lab) (hcons : consistentOK schPhased s = true) (c : LCell α lab)
+    (hc : IsLCell schPhased (genotype zero isTrue true invert false s) c) : IsLCell schPhased s c :=
+  masked_genotyping_attached_partial schPhased nonvacuous_schPhased_simple rfl zero isTrue invert s hcons c hc
+
+example : consistentOK schPhased sPhased = true := by decide +kernel
+
 /-- **Genotyping keeps "reported grouped ⇒ true partition"** (full): for the three protocols (`masked`, `invert`,
     `unphase` arbitrary), any class schema, any sizes.  In particular the metadata that
     `DenseMasked*Genotyping.genotype` recounts from the mask are a true contiguous partition of the masked
@@ -536,6 +654,20 @@ theorem unphased_genotyping_attached_partial {α lab : Type} [Add α] (sch : Sch
   unphased_attached sch hs h0 htx hvx zero isTrue masked invert s hcons j k v h
 
 example : schPhased.kindOf 0 = none := by decide
+
+/-- **… at full strength for `DensePhasedGenotypeMatrix`** (the only class the three protocols accept). -/
+theorem unphased_genotyping_attached {α lab : Type} [Add α] (zero : α) (isTrue : lab → Bool)
+    (masked invert : Bool) (s : St α lab) (hcons : consistentOK schPhased s = true) (j k : Nat) (v : α)
+    (h : cell (genotype zero isTrue masked invert true s).mat j k 0 = some v) :
+    ∃ cs : List (LCell α lab),
+      v = (cs.map (fun c => c.val)).foldl (· + ·) zero ∧
+      cs.map (fun c => c.i0) = (List.range s.mat.length).map AxInfo.pos ∧
+      ∀ c ∈ cs, IsLCell schPhased s c ∧
+        c.i1 = .lab (labelsAt (genotype zero isTrue masked invert true s).taxa j) ∧
+        c.i2 = .lab (labelsAt (genotype zero isTrue masked invert true s).vrnt k) :=
+  unphased_genotyping_attached_partial schPhased nonvacuous_schPhased_simple (by decide) rfl rfl zero isTrue masked
+    invert s hcons j k v h
+
 /-- **Masked genotyping without a mask copies everything** (fix 0d32ae5d): data, labels and both axes' group
     metadata of the output are those of the input, so a grouped input gives a correctly grouped output. -/
 theorem masked_genotyping_without_mask {α lab : Type} [Add α] (zero : α) (isTrue : lab → Bool) (invert : Bool)
@@ -851,16 +983,93 @@ example : sqRepairedOut.map (fun s' => (shape3 s'.mat, consistentOK schSquare s'
 example : sqRepairedOut.map (fun s' => (s'.bundle .taxa).cols)
     = some [some [100, 170, 101, 102], some [1, 5, 2, 1]] := by decide +kernel
 
+/-- **D14 repaired, mutating form: the proposed `incorp_taxa` keeps labels attached** (append, then reorder by the
+    same permutation) -/
+theorem square_incorp_repaired_attached_partial {α lab : Type} [BEq lab] (le : lab → lab → Bool) (sch : Schema) (hg : sch.Good)
+    (fill : α) (k : Kind) (n q p : Nat) (v : Operand α lab) (s s' : St α lab) (hcons : consistentOK sch s = true)
+    (hv : ValidHist4 le sch fill true (squareIncorpRepaired k n q p v) s)
+    (h : run le sch fill true (squareIncorpRepaired k n q p v) s = .ok s') :
+    consistentOK sch s' = true ∧
+      ∀ c, IsLCell sch s' c → IsLCell sch s c ∨ IsLCell sch (operandState s k v) c ∨ c.val = fill := by
+  obtain ⟨hc, hatt⟩ := run_attached4 le sch hg fill true _ s s' hcons hv h
+  refine ⟨hc, fun c hcell => ?_⟩
+  rcases hatt c hcell with h1 | h1 | h1
+  · exact Or.inl h1
+  · simp only [squareIncorpRepaired, Sources.SourcesTail, Op.operands, List.mem_singleton, exists_eq_left, Op.kind,
+      List.not_mem_nil, false_and, exists_false, or_false, and_false, false_or] at h1
+    exact Or.inr (Or.inl h1)
+  · exact Or.inr (Or.inr h1)
+
+/-- **D14 repaired: mutating = non-mutating** (full for the repaired pair, every class whose non-mutating methods keep
+    all bundles): whenever the repaired `insert_taxa(p, block)` returns a state, the repaired `incorp_taxa(p, block)`
+    leaves exactly that state — the statement `square_incorp_counterexample` refutes for the code as it is. -/
+theorem square_incorp_repaired_eq_insert {α lab : Type} [BEq lab] (le : lab → lab → Bool) (sch : Schema)
+    (hd : sch.pureDropsOther = false) (fill : α) (k : Kind) (n q p : Nat) (v : Operand α lab) (s s' : St α lab)
+    (h : run le sch fill true (squareInsertRepaired k n q p v) s = .ok s') :
+    run le sch fill true (squareIncorpRepaired k n q p v) s = .ok s' :=
+  squareIncorpRepaired_of_insert le sch hd fill k n q p v s s' h
+
+example : (run leI schSquare (-99 : Int) true
+    (squareIncorpRepaired .taxa 3 1 1 { mat := [[[(70 : Int)]]], cols := [some [170], some [5]] }) sSquare).toOption
+    = sqRepairedOut := by decide +kernel
+
+/-- **D14 repaired: the proposed `concat_taxa` (successive block-diagonal adjoins) keeps labels attached**: every
+    labelled cell of the result is a labelled cell of the first matrix, of one of the further matrices (seen with the
+    labels the intermediate result carries on the other axes), or a cross-block fill cell; the result is square. -/
+theorem square_concat_repaired_attached_partial {α lab : Type} [BEq lab] (le : lab → lab → Bool) (sch : Schema)
+    (hg : sch.Good) (fill : α) (k : Kind) (vs : List (Operand α lab)) (s s' : St α lab)
+    (hcons : consistentOK sch s = true) (hv : ValidHist4 le sch fill true (squareConcatRepaired k vs) s)
+    (h : run le sch fill true (squareConcatRepaired k vs) s = .ok s') :
+    consistentOK sch s' = true ∧
+      ∀ c, IsLCell sch s' c →
+        IsLCell sch s c ∨ Sources.SourcesTail le sch fill true (squareConcatRepaired k vs) s c ∨ c.val = fill :=
+  run_attached4 le sch hg fill true _ s s' hcons hv h
+
+example : ((run leI schSquare (-99 : Int) true
+    (squareConcatRepaired .taxa [{ mat := [[[(70 : Int)]]], cols := [some [170], some [5]] },
+                                 { mat := [[[(80 : Int)]]], cols := [some [180], some [6]] }]) sSquare).toOption.map
+    (fun s' => (shape3 s'.mat, consistentOK schSquare s', (s'.bundle .taxa).cols)))
+    = some ((5, 5, 1), true, [some [100, 101, 102, 170, 180], some [1, 2, 1, 5, 6]]) := by decide +kernel
+
+/-- DenseSquareTaxaTraitMatrix with the overrides of `patches/C03_D27.diff`: the non-mutating methods keep every bundle -/
+def schSqTraitRepaired : Schema := { schSqTrait with pureDropsOther := false }
+
+theorem nonvacuous_schSqTT_repaired_good : schSqTraitRepaired.Good := by
+  refine ⟨?_, ?_, rfl, rfl⟩
+  · intro b k1 k2 h1 h2
+    cases k1 <;> cases k2 <;> simp [Schema.axes, schSqTraitRepaired, schSqTrait] at h1 h2 ⊢ <;> omega
+  · intro k
+    cases k <;> simp [Schema.axes, schSqTraitRepaired, schSqTrait]
+
+/-- **D27 repaired: DenseSquareTaxaTraitMatrix with the ten overrides of `patches/C03_D27.diff`** (the schema with
+    `pureDropsOther = false`) is an admissible class, so EVERY history on it — non-mutating methods included — keeps
+    labels attached (`history_preserves_entities_partial` applies; this is the instance). -/
+theorem square_taxa_trait_repaired_history_attached {α lab : Type} [BEq lab] (le : lab → lab → Bool) (fill : α)
+    (ops : List (Op α lab)) (s s' : St α lab)
+    (hcons : consistentOK schSqTraitRepaired s = true)
+    (hv : ValidHist4 le schSqTraitRepaired fill true ops s)
+    (h : run le schSqTraitRepaired fill true ops s = .ok s') :
+    consistentOK schSqTraitRepaired s' = true ∧
+      ∀ c, IsLCell schSqTraitRepaired s' c →
+        IsLCell schSqTraitRepaired s c ∨
+        Sources.SourcesTail le schSqTraitRepaired fill true ops s c ∨ c.val = fill :=
+  run_attached4 le _ nonvacuous_schSqTT_repaired_good fill true ops s s' hcons hv h
+
+/-- the D27 witness on the repaired class: `select_taxa([1, 0])` keeps the trait names -/
+example : ((selectK schSqTraitRepaired .taxa [1, 0] sSqTrait).toOption.map (fun s' => (s'.bundle .trait).cols))
+    = some (sSqTrait.bundle .trait).cols := by decide +kernel
+
 /-! ## 11. Every position form of numpy.insert (boolean masks, unsorted index lists: `Model/LabelMatX.lean`)
 
 numpy sorts unsorted positions stably and moves the values along; a boolean ndarray stands for `flatnonzero`.  Both
 forms are the sorted-list insertion of a PERMUTED operand, on the data block and on every label array alike. -/
 
 /-
-FULL STATEMENT (not proved for the square classes, whose insert / incorp are defect D14):
-  for every class, `insert_<k>(obj, values, …)` and `incorp_<k>(obj, values, …)` with `obj` an integer, a slice, an
-  index list in any order or a boolean mask leave a state whose labelled cells are labelled cells of the receiver or
-  of the operand block as it was passed.
+FULL STATEMENT (not proved for the square classes, whose insert / incorp are defect D14; false of the as-is model for a
+0-d ndarray position on a non-leading axis, see `insert_zero_dim_array_position_counterexample` (D17b)):
+  for every class, `insert_<k>(obj, values, …)` and `incorp_<k>(obj, values, …)` with `obj` an integer (Python int,
+  numpy integer scalar or 0-d integer ndarray), a slice, an index list in any order or a boolean mask leave a state
+  whose labelled cells are labelled cells of the receiver or of the operand block as it was passed.
 Hypotheses of the partial theorem: `sch.Good`, the bundle governs one axis, receiver and operand block are
 shape-consistent with no empty dimension (also after the operand has been permuted).
 -/
@@ -912,6 +1121,24 @@ theorem spec_consistent_iff {α lab : Type} (sch : Schema) (s : St α lab) : con
 theorem spec_lcells_iff {α lab : Type} (sch : Schema) (s : St α lab) (hr : rect s.mat = true) (c : LCell α lab) :
     c ∈ lcells sch s ↔ IsLCell sch s c :=
   mem_lcells_iff sch s hr c
+
+/-- **spec_sound, fill-count oracle**: the state the model's `append_<k>` / `adjoin_<k>` of a square bundle leaves
+    satisfies the driver's `fillBalance` — `#fill(result) = #fill(receiver) + #fill(block) + (|result| - |receiver| - |block|)`,
+    i.e. the fill value stands in the cross blocks only (any sizes, any fill value; the Prop behind it is
+    `square_adjoin_keeps_every_data_cell`). -/
+theorem spec_fill_balance_sound {lab : Type} (sch : Schema) (k : Kind) (hax : sch.axes k = [0, 1]) (fill : Int)
+    (v : Operand Int lab) (s s' : St Int lab) (h : appendK sch k fill v s = .ok s')
+    (hm : rect s.mat = true) (hv : rect v.mat = true) (h0 : 0 < axLen 0 s.mat) (h1 : 0 < axLen 1 s.mat) :
+    fillBalance (some fill) (lcells sch s).length ((lcells sch s).map (·.val))
+      [((lcells sch (operandState s k v)).length, (lcells sch (operandState s k v)).map (·.val))]
+      (lcells sch s').length ((lcells sch s').map (·.val)) = true :=
+  fillBalance_appendK sch k hax fill v s s' h hm hv h0 h1
+
+/-- the oracle rejects a result whose operand block was left as fill value (what the self-test mutant does) -/
+example : fillBalance (some (-99)) 9 [0, 1, 2, 3, 4, 5, 6, 7, 8] [(1, [70])] 16
+    [0, 1, 2, -99, 3, 4, 5, -99, 6, 7, 8, -99, -99, -99, -99, -99] = false := by decide
+example : fillBalance (some (-99)) 9 [0, 1, 2, 3, 4, 5, 6, 7, 8] [(1, [70])] 16
+    [0, 1, 2, -99, 3, 4, 5, -99, 6, 7, 8, -99, -99, -99, -99, 70] = true := by decide
 
 /-- **spec_sound, grouping oracle**: if `groupedOK` accepts a state, every labelled bundle that reports itself grouped
     has a group column and its metadata are a true contiguous partition of that column. -/
